@@ -38,16 +38,33 @@ func (mh *MessageHandler) FromNet(p peer.ID, r io.Reader) (message.GraphSyncMess
 
 // FromMsgReader can deserialize a DAG-CBOR message into a GraphySyncMessage
 func (mh *MessageHandler) FromMsgReader(_ peer.ID, r msgio.Reader) (message.GraphSyncMessage, error) {
+	// io.EOF means "the stream ended cleanly" to callers, which is only true
+	// while waiting for the length prefix of the next message. Once a length
+	// prefix has been read, running out of data -- in the frame or inside the
+	// DAG-CBOR content -- is a truncated (malformed) message.
+	if _, err := r.NextMsgLen(); err != nil {
+		return message.GraphSyncMessage{}, err
+	}
+
 	msg, err := r.ReadMsg()
 	if err != nil {
-		return message.GraphSyncMessage{}, err
+		return message.GraphSyncMessage{}, notEOF(err)
 	}
 
 	ipldGSM, err := ipldbind.BindnodeRegistry.TypeFromBytes(msg, (*ipldbind.GraphSyncMessageRoot)(nil), dagcbor.Decode)
 	if err != nil {
-		return message.GraphSyncMessage{}, err
+		return message.GraphSyncMessage{}, notEOF(err)
 	}
 	return mh.fromIPLD(ipldGSM.(*ipldbind.GraphSyncMessageRoot))
+}
+
+// notEOF turns a bare io.EOF raised in the middle of a message into
+// io.ErrUnexpectedEOF so that it is not mistaken for the end of the stream
+func notEOF(err error) error {
+	if err == io.EOF {
+		return io.ErrUnexpectedEOF
+	}
+	return err
 }
 
 // ToProto converts a GraphSyncMessage to its ipldbind.GraphSyncMessageRoot equivalent
